@@ -25,7 +25,15 @@ const EMPTY_INPUTS: &[&[u8]] = &[
 ];
 
 fn special_family(rng: &mut Rng, cfg: &GenCfg) -> Option<Vec<Doc>> {
-    match rng.below(40) {
+    let which = rng.below(40);
+    // the huge-schema family is expensive to observe: once in 600 sessions
+    let which = if which == 4 && !rng.pct(7) { 39 } else { which };
+    family(rng, cfg, which)
+}
+
+/// 0 deep chain, 1 wide parent (many occurrences), 2 very wide position (many distinct names), 3 long history
+pub fn family(rng: &mut Rng, cfg: &GenCfg, which: usize) -> Option<Vec<Doc>> {
+    match which {
         0 => {
             // deep chain, same or distinct names, optionally with a sibling at every level
             // depth classes: moderate; around 96..140; beyond 256 (thresholds of "stack protection" style changes)
@@ -132,6 +140,24 @@ fn special_family(rng: &mut Rng, cfg: &GenCfg) -> Option<Vec<Doc>> {
             }
             Some(docs)
         }
+        4 => {
+            // huge schema: 2000..3500 distinct positions (size thresholds such as "parallelise above 2048 elements")
+            let sections = rng.range(30, 50);
+            let per = rng.range(60, 75);
+            let mut root = Elem::new("catalog");
+            for i in 0..sections {
+                let mut s = Elem::new(&format!("s{i:02}"));
+                // uneven sizes: the first section is much larger than the rest
+                let n = if i == 0 { per * 3 } else { per / 2 + rng.below(per) };
+                for j in 0..n {
+                    let mut g = Elem::new(&format!("g{i:02}x{j}"));
+                    g.selfclose = true;
+                    s.kids.push(Node::Elem(g));
+                }
+                root.kids.push(Node::Elem(s));
+            }
+            Some(vec![Doc::plain(root)])
+        }
         3 => {
             // long history: 8..=20 small documents from one skeleton (counters, positions and merges accumulate)
             let mut c = cfg.clone();
@@ -186,6 +212,7 @@ fn env_steps(rng: &mut Rng, docs: &[Doc], order: &[usize], with_failures: bool, 
                     Fault::Truncate { at } => Fault::Io { at, kind: "Other".into() },
                     f => f,
                 };
+                p.io_once = rng.pct(30);
                 st.push(Step { input: Input::Doc(*i), plan: p, cfg: 0 });
             } else {
                 // only copies that the independent verdict rejects (even as an extension) count as failed deliveries;
